@@ -182,6 +182,8 @@ BREAKING = [
     ('C06', 'sc3/base/_osclib.py', "                elif param == \"f\":  # Float.\n                    val, index = get_float(self._dgram, index)", "                elif param == \"f\":  # Float.\n                    val, index = get_double(self._dgram, index)", 'float arguments decoded as doubles'),
     ('C04', 'sc3/synth/synthdef.py', '                for varname, pairs in self._variants.items():\n                    varname = self._name + \'.\' + varname\n                    if len(varname) > 32:\n                        _logger.warning(\n                            f"variant \'{varname}\' name too log, "\n                            "not writing more variants")\n                        return False\n\n                    varcontrols = self._controls[:]\n', '                varcontrols = self._controls[:]\n                for varname, pairs in self._variants.items():\n                    varname = self._name + \'.\' + varname\n                    if len(varname) > 32:\n                        _logger.warning(\n                            f"variant \'{varname}\' name too log, "\n                            "not writing more variants")\n                        return False\n\n', 'variants share one control array (copy hoisted out of the loop)'),
     ('C02', 'sc3/synth/synthdef.py', "                frw.write_pascal_str(file, item.name)\n                frw.write_i32(file, item.index)", "                frw.write_i32(file, item.index)\n                frw.write_pascal_str(file, item.name)", 'name table entries written index first'),
+    ('C02', 'sc3/synth/synthdef.py', "        self._topological_sort()\n        self._index_ugens()\n        # UGen.buildSynthDef", "        self._index_ugens()\n        self._topological_sort()\n        # UGen.buildSynthDef", 'units indexed before the final sort'),
+    ('C02', 'sc3/synth/synthdef.py', "            arr[index] = value", "            arr[index - 1] = value", 'constants written one slot off'),
 ]
 
 
